@@ -2,7 +2,7 @@ use rusty_common::{AtPos, CaseInsensitiveString, Position, Positioned};
 use rusty_linter::core::{LinterContext, ScopeName};
 use rusty_linter::names::Names;
 use rusty_parser::{
-    AsBareName, Assignment, BareName, BuiltInFunction, BuiltInSub, DimVar, Expression,
+    AsBareName, Assignment, BareName, BuiltInFunction, BuiltInSub, CaseBlock, DimVar, Expression,
     ExpressionType, FileHandle, FunctionImplementation, GlobalStatement, HasExpressionType, Name,
     Parameter, Program, Statement, Statements, SubImplementation, TypeQualifier, UserDefinedTypes,
 };
@@ -406,16 +406,63 @@ impl InstructionGenerator {
 
     fn move_data_statements_first(statements: Statements) -> Statements {
         let mut data_statements: Statements = vec![];
-        let mut other_statements: Statements = vec![];
-        for statement in statements {
-            if Self::is_data_statement(&statement.element) {
-                data_statements.push(statement);
-            } else {
-                other_statements.push(statement);
-            }
-        }
+        let mut other_statements = Self::extract_data_statements(statements, &mut data_statements);
         data_statements.append(&mut other_statements);
         data_statements
+    }
+
+    /// Removes the DATA statements from the given statements, also from
+    /// within blocks (DATA is a declaration, not something that is executed).
+    fn extract_data_statements(statements: Statements, data: &mut Statements) -> Statements {
+        let mut result: Statements = vec![];
+        for Positioned { element, pos } in statements {
+            if Self::is_data_statement(&element) {
+                data.push(element.at_pos(pos));
+                continue;
+            }
+            let element = match element {
+                Statement::IfBlock(mut i) => {
+                    i.if_block.statements =
+                        Self::extract_data_statements(i.if_block.statements, data);
+                    for else_if_block in i.else_if_blocks.iter_mut() {
+                        let statements = std::mem::take(&mut else_if_block.statements);
+                        else_if_block.statements = Self::extract_data_statements(statements, data);
+                    }
+                    i.else_block = i.else_block.map(|s| Self::extract_data_statements(s, data));
+                    Statement::IfBlock(i)
+                }
+                Statement::ForLoop(mut f) => {
+                    f.statements = Self::extract_data_statements(f.statements, data);
+                    Statement::ForLoop(f)
+                }
+                Statement::While(mut w) => {
+                    w.statements = Self::extract_data_statements(w.statements, data);
+                    Statement::While(w)
+                }
+                Statement::DoLoop(mut d) => {
+                    d.statements = Self::extract_data_statements(d.statements, data);
+                    Statement::DoLoop(d)
+                }
+                Statement::SelectCase(mut s) => {
+                    s.case_blocks = s
+                        .case_blocks
+                        .into_iter()
+                        .map(|case_block| {
+                            let (conditions, statements) = case_block.into();
+                            CaseBlock::new(
+                                conditions,
+                                Self::extract_data_statements(statements, data),
+                            )
+                        })
+                        .collect();
+                    s.else_block = s.else_block.map(|s| Self::extract_data_statements(s, data));
+                    Statement::SelectCase(s)
+                }
+                other => other,
+            };
+            result.push(element.at_pos(pos));
+        }
+        result
     }
 
     fn is_data_statement(statement: &Statement) -> bool {
